@@ -405,14 +405,14 @@ Lemma got_ok_upd fl j r r' g :
   got_ok fl g -> got_ok (upd j r' fl) g.
 Proof.
   intros Hn Hf Hk Hw [H|[r0 (H1 & H2 & H3 & H4)]]; [left; auto|right].
-  destruct (Nat.eq_dec j (fst g)) as [<-|Hne].
-  - rewrite Hn in H1. inv_some H1. exists r'. split; [eapply nth_upd_same; eauto|].
+  destruct (Nat.eq_dec j (fst g)) as [E|Hne].
+  - rewrite <- E in *. rewrite Hn in H1. inv_some H1. exists r'. split; [eapply nth_upd_same; eauto|].
     destruct (Hw H4) as [Ha Hb]. repeat split; congruence.
   - exists r0. rewrite nth_upd_other; auto.
 Qed.
 
 Ltac fut_fields r :=
-  destruct r as [k w a p v fr h]; simpl in *.
+  destruct r as [fk0 fw0 fa0 fp0 fv0 fr0 fh0]; simpl in *.
 
 (* every step of a future keeps its local invariant, keeps the kind, and never un-completes it *)
 Lemma step_f_local s j r e s' :
@@ -423,8 +423,107 @@ Lemma step_f_local s j r e s' :
 Proof.
   intros Hf Hn H. destruct e; simpl in H; try discriminate.
   all: fut_fields r; case_hyp H; inv_some H; simpl.
-  all: try (eexists; split; [left; reflexivity|]; simpl;
-            destruct k, h; simpl in *; try discriminate; bsimp; split_and; subst; try discriminate;
+  all: unfold f_holds, f_upd, f_rel, f_store; simpl.
+  all: repeat match goal with
+              | x : fword |- _ => destruct x
+              | x : ppc |- _ => destruct x
+              | x : apc |- _ => destruct x
+              | x : fkind |- _ => destruct x
+              | x : option nat |- _ => destruct x
+              | x : bool |- _ => destruct x
+              end; simpl in *; try discriminate.
+  all: try (eexists; split; [left; reflexivity|]; simpl; bsimp; split_and; subst; try discriminate;
             repeat split; try reflexivity; try discriminate; auto; fail).
   all: try (eexists; split; [right; split; reflexivity|]; simpl; repeat split; auto; fail).
+Qed.
+
+Ltac all_fields :=
+  repeat match goal with
+         | x : fword |- _ => destruct x
+         | x : ppc |- _ => destruct x
+         | x : apc |- _ => destruct x
+         | x : fkind |- _ => destruct x
+         | x : option nat |- _ => destruct x
+         | x : bool |- _ => destruct x
+         end; simpl in *; try discriminate.
+
+Ltac pose_sum Hn :=
+  match goal with
+  | |- context [set_f _ ?x _] => pose proof (sumh_upd _ _ _ x Hn) as Hs; simpl in Hs
+  | |- context [upd _ ?x _] => pose proof (sumh_upd _ _ _ x Hn) as Hs; simpl in Hs
+  | _ => idtac
+  end.
+
+Lemma gb_set_f j r s : Gb (set_f j r s) = Gb s.
+Proof. reflexivity. Qed.
+
+Lemma step_f_global s j r e s' :
+  Inv s -> nth_error (fs s) j = Some r -> step_f s j r e = Some s' ->
+  Gb s' = true /\ Cpart s' /\ (broken s' = false -> broken s = false).
+Proof.
+  intros (G & C & F & W & R) Hn H.
+  assert (Hf : finv r = true) by (eapply Forall_nth in F; eauto).
+  destruct e; simpl in H; try discriminate.
+  all: fut_fields r; case_hyp H; inv_some H.
+  all: pose_sum Hn.
+  all: split; [first [apply gb_do_add | apply gb_do_sub | idtac]; exact G|].
+  all: try (split; [|simpl; auto]; intros Hb; simpl in Hb; specialize (C Hb); unfold Cpart in *; simpl in *; lia).
+  - (* EFAdd *)
+    split; [|intros Hb; apply broken_do_add in Hb; exact Hb]. intros Hb. apply broken_do_add in Hb. simpl in Hb. specialize (C Hb).
+    all_fields; bsimp; split_and; try discriminate; simpl in *; lia.
+  - (* EFSubA, attach *)
+    split; [|intros Hb; apply broken_do_sub in Hb; tauto].
+    intros Hb. apply broken_do_sub in Hb. destruct Hb as (Hb & _ & Hle). simpl in Hb, Hle. specialize (C Hb).
+    all_fields; bsimp; split_and; try discriminate; simpl in *; lia.
+  - (* EFSubA, consume *)
+    split; [|intros Hb; apply broken_do_sub in Hb; tauto].
+    intros Hb. apply broken_do_sub in Hb. destruct Hb as (Hb & _ & Hle). simpl in Hb, Hle. specialize (C Hb).
+    all_fields; bsimp; split_and; try discriminate; simpl in *; lia.
+  - (* EFSubP, attach *)
+    split; [|intros Hb; apply broken_do_sub in Hb; tauto].
+    intros Hb. apply broken_do_sub in Hb. destruct Hb as (Hb & _ & Hle). simpl in Hb, Hle. specialize (C Hb).
+    all_fields; bsimp; split_and; try discriminate; simpl in *; lia.
+  - (* EFSubP, consume *)
+    split; [|intros Hb; apply broken_do_sub in Hb; tauto].
+    intros Hb. apply broken_do_sub in Hb. destruct Hb as (Hb & _ & Hle). simpl in Hb, Hle. specialize (C Hb).
+    all_fields; bsimp; split_and; try discriminate; simpl in *; lia.
+Qed.
+
+Lemma step_f_obs s j r e s' :
+  step_f s j r e = Some s' ->
+  (readys s' = readys s /\ gots s' = gots s) \/
+  (exists b, readys s' = readys s ++ [(j, b, b)] /\ gots s' = gots s /\ fs s' = fs s) \/
+  (readys s' = readys s /\ gots s' = gots s ++ [(j, rd r)] /\ fk r = FAttach /\ fs s' = fs s).
+Proof.
+  intros H. destruct e; simpl in H; try discriminate.
+  all: case_hyp H; inv_some H; simpl; auto.
+  - right; left. apply eqb_prop in Heqb0. subst b. eexists; repeat split.
+  - right; right. repeat split; auto.
+Qed.
+
+Lemma rd_some r x : rd r = Some x -> fw r = WR /\ fval r = Some x.
+Proof. unfold rd. destruct (fw r), (frel r); try discriminate; auto. Qed.
+
+Lemma inv_step_f s j r e s' :
+  Inv s -> nth_error (fs s) j = Some r -> step_f s j r e = Some s' -> Inv s'.
+Proof.
+  intros I Hn H.
+  destruct (step_f_global _ _ _ _ _ I Hn H) as (G' & C' & Hmono).
+  destruct I as (G & C & F & W & (R1 & R2 & R3 & R4 & R5)).
+  assert (Hf : finv r = true) by (eapply Forall_nth in F; eauto).
+  destruct (step_f_local _ _ _ _ _ Hf Hn H) as (r' & Hfs & Hf' & Hk & Hw & E1 & E2 & E3 & E4 & E5).
+  split; [exact G'|]. split; [exact C'|]. split.
+  { destruct Hfs as [->|[-> _]]; [apply Forall_upd; auto|exact F]. }
+  split; [rewrite E1, E2, E3, E4; exact W|].
+  unfold Rpart. rewrite E1, E5.
+  split; [intros Hb; apply R1; auto|].
+  assert (R3' : Forall (got_ok (fs s')) (gots s)).
+  { destruct Hfs as [->|[-> _]]; [|exact R3].
+    eapply Forall_impl; [|exact R3]. intros g Hg. eapply got_ok_upd; eauto. }
+  destruct (step_f_obs _ _ _ _ _ H) as [[-> ->]|[[b (-> & -> & _)]|(-> & -> & Hka & Efs)]].
+  - repeat split; auto.
+  - repeat split; auto. apply Forall_app_one; auto. reflexivity.
+  - repeat split; auto. apply Forall_app_one; auto.
+    destruct (rd r) as [x|] eqn:Er; [right|left; reflexivity].
+    apply rd_some in Er. destruct Er as [Ew Ev]. exists r. rewrite Efs. simpl. repeat split; auto.
 Qed.
